@@ -7,6 +7,7 @@ taken modulo 65536 exactly where the Go code computes in `uint16`.
 the `if e.err != nil` guards are therefore not modelled.
 -/
 import LinVerif.Model.Xor
+import LinVerif.Generated.C14
 
 namespace LinVerif.Tsd
 open LinVerif.Bits LinVerif.Xor
@@ -104,9 +105,15 @@ def Dec.resetWithTimeRange (d : Dec) (data : List Nat) (s e : Nat) : Dec :=
 def Dec.fresh (data : List Nat) : Dec :=
   if data.length > 4 then Dec.zero.reset data else Dec.zero
 
+/-- the left side of the test in `Next()`: `startTime+idx` computed in `uint16` (wraps at 65536) or,
+when the regenerated fact says the source converts to `int` first, without wrap-around -/
+def nextKey (wide : Bool) (startTime idx : Nat) : Nat :=
+  if wide then startTime + idx else u16 (startTime + idx)
+
 /-- `Next()` -/
 def Dec.next (d : Dec) : Bool × Dec :=
-  if u16 (d.startTime + d.idx) ≤ d.endTime then (true, { d with idx := u16 (d.idx + 1) })
+  if nextKey Generated.C14.tsdNextWideCompare d.startTime d.idx ≤ d.endTime then
+    (true, { d with idx := u16 (d.idx + 1) })
   else (false, d)
 
 /-- `HasValue()` -/
